@@ -104,6 +104,8 @@ theorem asi_flags_eq : ∀ (ts : List (Tk × Bool)) (st : Bool), (∀ p ∈ ts, 
 /-- every literal kind, identifier and closing token is settled and can end a statement (non-vacuity of `asi_flags_eq`) -/
 example : ∀ s, Asi.settled (.num s) = true ∧ Asi.canEnd (.num s) = true ∧ Asi.settled (.id s) = true ∧ Asi.settled (.str s) = true :=
   fun _ => ⟨rfl, rfl, rfl, rfl⟩
+/-- a regular expression literal (the parser's token after re-scanning `/` or `/=`) is settled and can end a statement -/
+example : ∀ s, Asi.settled (.regex s) = true ∧ Asi.canEnd (.regex s) = true := fun _ => ⟨rfl, rfl⟩
 example : (Asi.settled (.p .rparen) && Asi.settled (.p .rbrace) && Asi.settled (.p .inc) && Asi.settled (.p .kReturn)
     && Asi.settled (.p .plus) && !Asi.settled (.p .kThrow) && !Asi.settled (.p .slash) && !Asi.settled (.p .kIn)) = true := by decide
 
